@@ -262,6 +262,59 @@ def run(tier="quick", replay=None):
                     "the inner program's" % (g.path, "a parameter/captured context" if from_outside else "a non-fresh value"), fn=g.path)
     R.floor("R13.O5", "nested/top-level compile contexts", n5, 10)
 
+    # ---------------- O6 synthesised functions record the arguments their code really takes ---------
+    def value_root(g, gfl, op):
+        """Follow moves and clone() back to the local (or field place) a value was copied from."""
+        p = op_place(op)
+        if p is None:
+            return None
+        cur = (gfl.node(p), tuple(str(e["f"]) for e in p["p"] if isinstance(e, dict) and "f" in e))
+        seen = set()
+        while cur not in seen:
+            seen.add(cur)
+            l, flds = cur
+            if flds or l is None or l < 0 or (1 <= l <= g.argc) or g.local_name(l):
+                return cur
+            nxt = None
+            for b2, i2, s2 in g.stmts():
+                if gfl.node(s2["pl"]) == l and not s2["pl"]["p"] and s2["rv"]["k"] in ("use", "ref"):
+                    q = op_place(rv_operands(s2["rv"])[0]) if rv_operands(s2["rv"]) else None
+                    if q is not None:
+                        nxt = (gfl.node(q), tuple(str(e["f"]) for e in q["p"] if isinstance(e, dict) and "f" in e))
+            for b2, t2 in gfl.call_defs.get(l, []):
+                if (callee_of(t2) or "").rsplit("::", 1)[-1] in ("clone", "deref", "borrow", "as_ref") and t2["args"]:
+                    q = op_place(t2["args"][0])
+                    if q is not None:
+                        nxt = (gfl.node(q), tuple(str(e["f"]) for e in q["p"] if isinstance(e, dict) and "f" in e))
+            if nxt is None:
+                return cur
+            cur = nxt
+        return cur
+    n6 = 0
+    for g in sorted(prog.fns.values(), key=lambda f: f.path):
+        if g.path.endswith("as std::clone::Clone>::clone"):
+            continue
+        gfl = None
+        for bb, i, s in g.stmts():
+            rv = s["rv"]
+            if not (rv["k"] == "agg" and rv.get("adt", "").endswith("comptypes::DefunData")):
+                continue
+            gfl = gfl or Flow(g)
+            ops = dict(zip(rv["fields"], rv["ops"]))
+            sl = op_local(ops["synthetic"])
+            syn = [s2["rv"].get("variant") for x in (gfl.back_pure([sl]) if sl is not None else [])
+                   for _, _, s2 in gfl.agg_defs.get(x, []) if s2["rv"].get("adt", "").endswith("option::Option")]
+            if "Some" not in syn:
+                continue      # user-written or copied definitions keep their own orig_args
+            n6 += 1
+            ra, ro = value_root(g, gfl, ops["args"]), value_root(g, gfl, ops["orig_args"])
+            R.check(ra is not None and ra == ro, "R13.O6", "R13.O6|%s|synthetic-args" % g.path, "%s:%s" % (g.file, s.get("line")),
+                    "auto: a compiler-synthesised function records as `orig_args` the very argument list (`args`) its code takes",
+                    "%s synthesises a function whose recorded argument list (orig_args, shown as <hash>_arguments) is not the list "
+                    "its code takes (args): roots %s vs %s — e.g. a lambda's capture tuple would be missing from the symbol entry" % (
+                        g.path, ro, ra), fn=g.path)
+    R.floor("R13.O6", "synthesised function definitions", n6, 2)
+
     # ---------------- O4 ------------------------------------------------------------------------
     cg = prog.fn("compiler::codegen::codegen")
     if cg is None:
